@@ -49,6 +49,22 @@ def scenarios(ctx):
                 out.append({"id": "frac-%d" % k, "cfg": {"tick_ms": 100, "rates": rates, "cap": 8, "level": "http", "extract": "custom",
                                                          "qualified": True}, "steps": steps})
                 k += 1
+    # the ExtractRates option gives the source a rate with a LONGER period than the limiter's defaults: the source is remembered
+    # as long as ITS rates need (idle gaps just beyond ten default periods must not hand it a fresh burst)
+    for i in range(12 if quick else 120):
+        short = rng.choice([1, 2])
+        default = [{"p": short, "a": rng.choice([5, 10]), "b": 10}]
+        longp = rng.choice([30, 60, 120])
+        avg = rng.choice([10, 20])
+        special = [dict(default[0]), {"p": longp, "a": avg, "b": avg * rng.choice([1, 2])}]
+        steps = []
+        for _ in range(10 if quick else 25):
+            for _ in range(rng.randint(5, 25)):
+                steps.append({"op": "req", "src": "s1", "n": 1})
+            steps.append({"op": "adv", "d": rng.choice([1, 1, 2, 10 * short, 10 * short + 1, 10 * short + 2, 10 * short + 3, 2 * longp])})
+        out.append({"id": "extracted-%d" % i, "cfg": {"tick_ms": 1000, "rates": default, "srcrates": {"s1": special}, "contractsrc": "s1",
+                                                      "cap": 65536, "level": "http", "extract": "custom", "qualified": True, "approx": True},
+                    "steps": steps})
     out += RC.byte_quota_scenarios("c03", {})
     out += RC.fast_rate_scenarios("c03", rng, {})
     for s in out:
